@@ -37,9 +37,10 @@ package eth
 //@ func (*Byte).Write props=C17
 //@   ensures [stored] uint8(*b) == p && result0 == 1 && result1 == nil
 
-// The accessor returns the very bytes held (same length, same contents).
+// The accessor returns the very slice held (same backing array, length and
+// capacity: callers that compare or alias it see *hb itself).
 //@ func (*Bytes).Bytes props=C17,C10
-//@   ensures [same] len(result) == len(*hb) && (forall k int :: 0 <= k && k < len(*hb) ==> result[k] == (*hb)[k])
+//@   ensures [same] result == *hb
 
 //@ func (*Bytes).Write props=C17,C08,C18
 //@   requires len(p) == 0 || base(p) != base(*hb)
